@@ -478,6 +478,8 @@ PROPS = {
         "units": [
             plain("c09", "TestKnownSmallerZero"),
             rapid("c09", "TestPropModel", quick=(1000, 10), thorough=(15000, 16), steps=40),
+            plain("c09", "TestReplayConcurrentMoves"),
+            rapid("c09", "TestPropConcurrentUIDs", quick=(120, 4), thorough=(3000, 8)),
         ],
     },
     "C14": {
